@@ -167,7 +167,6 @@ func (s *LinearState) Load(ctx *Context) error {
 
 func (s *LinearState) Add(ctx *Context, id string, x Map) (string, error) {
 	Log(DEBUG, ctx, "LinearState.Add", "state", s.Name, "x", x, "id", id)
-	delete(s.cachedRules, id)
 	timer := NewTimer(ctx, "LinearState.Add")
 	defer timer.Stop()
 
@@ -204,6 +203,8 @@ func (s *LinearState) Add(ctx *Context, id string, x Map) (string, error) {
 		}
 	}
 	s.Facts[id] = RawFact{m, bs}
+	// (The rule cache is guarded by the state's lock.)
+	delete(s.cachedRules, id)
 	s.sunlock(ctx, false)
 
 	return id, nil
@@ -228,7 +229,6 @@ func (s *LinearState) Rem(ctx *Context, id string) (bool, error) {
 
 func (s *LinearState) rem(ctx *Context, id string, lock bool) (bool, error) {
 	Log(DEBUG, ctx, "LinearState.rem", "id", id)
-	delete(s.cachedRules, id)
 	_, err := s.store.Remove(ctx, s.Name, []byte(id))
 	// ToDo: Consider what's returned.
 	if err != nil {
@@ -240,6 +240,8 @@ func (s *LinearState) rem(ctx *Context, id string, lock bool) (bool, error) {
 		s.slock(ctx, false)
 		defer s.sunlock(ctx, false)
 	}
+	// (The rule cache is guarded by the state's lock.)
+	delete(s.cachedRules, id)
 	_, had := s.Facts[id]
 	if had {
 		Log(DEBUG, ctx, "LinearState.Rem", "found", id)
@@ -353,11 +355,16 @@ func (s *LinearState) FindRules(ctx *Context, event Map) (map[string]Map, error)
 }
 
 func (s *LinearState) doFindRules(ctx *Context, event Map) (map[string]Map, error) {
+	s.slock(ctx, true)
+	defer s.sunlock(ctx, true)
+	return s.findRules(ctx, event)
+}
+
+// findRules does the work for doFindRules.  Assumes the caller has the lock.
+func (s *LinearState) findRules(ctx *Context, event Map) (map[string]Map, error) {
 	// We could call Search(), but we'll try to be a bit
 	// more efficient here.
 	acc := make(map[string]Map)
-	s.slock(ctx, true)
-	defer s.sunlock(ctx, true)
 	now := time.Now().UTC().Unix()
 	for id, rf := range s.Facts {
 		rule, given := rf.M["rule"]
@@ -422,7 +429,15 @@ func (s *LinearState) FindCachedRules(ctx *Context, event Map) (map[string]*Rule
 	timer := NewTimer(ctx, "LinearState.FindCachedRules")
 	defer timer.Stop()
 
-	rules, err := s.doFindRules(ctx, event)
+	// The rule cache is guarded by the state's (write) lock: looking
+	// up the rules and filling the cache has to be atomic with respect
+	// to Add and Rem, which drop cache entries.  Otherwise a rule
+	// compiled from a body that has just been replaced could be put
+	// (back) into the cache.
+	s.slock(ctx, false)
+	defer s.sunlock(ctx, false)
+
+	rules, err := s.findRules(ctx, event)
 	if err != nil {
 		return nil, err
 	}
@@ -436,6 +451,7 @@ func (s *LinearState) FindCachedRules(ctx *Context, event Map) (map[string]*Rule
 			if err != nil {
 				return nil, err
 			}
+			rule.Id = id
 			acc[id] = rule
 			s.cachedRules[id] = rule
 		}
